@@ -25,6 +25,7 @@ func C12(r *core.Run) {
 	rule083(r, ctx)
 	rule086(r)
 	rule0112(r, "C12")
+	rule085(r, ctx)
 	reach := reachableFrom(r, handlerRoots(r))
 	rule091alloc(r, ctx, reach)
 	// the decoder's own bounds sites
